@@ -78,6 +78,8 @@ FIXED = [
   "TimeSeriesDifference.degree was a read-only property: set_params(degree=...) raised"),
  ("C15", "TransferTransformer.fit:raises:copy_estimator=True", "TransferTransformer.fit with copy_estimator=True no longer raises",
   "TransferTransformer.fit(copy_estimator=True) raised AssertionError for fitted trees: assert_estimator_equal compared tree_ objects with =="),
+ ("C03", "ClassifierAfterKMeans:refit:observer-differs:predict", "ClassifierAfterKMeans fits a clone of its estimator",
+  "ClassifierAfterKMeans.fit trained the given estimator object in place and predicted with it: with a stateful classifier (warm_start) a refit differed from a fresh clone's fit, and two instances built from the same classifier object overwrote each other (found by the shared-components and refit histories)"),
 ]
 log = subprocess.run(["git", "-C", "/repo", "log", "--format=%h\t%s"], stdout=subprocess.PIPE, text=True).stdout.split("\n")
 def find(sub):
